@@ -361,7 +361,14 @@ func (q *checker) tcheckAssign(n *a.Assign) error {
 		return err
 	}
 	for l := lhs; l != nil; l = l.LHS().AsExpr() {
-		if l.Operator() != t.IDOpenBracket {
+		if l.Operator() == 0 {
+			// The root has to be a local variable, this or args. A
+			// (package-level) constant cannot be assigned to.
+			if _, ok := q.localVars[l.Ident()]; !ok {
+				return fmt.Errorf("check: assignment %q: assignee %q is not rooted at a variable",
+					n.Operator().Str(q.tm), lhs.Str(q.tm))
+			}
+		} else if l.Operator() != t.IDOpenBracket {
 			// No-op.
 		} else if lTyp := l.LHS().MType(); lTyp.IsRecursivelyReadOnly() {
 			return fmt.Errorf("check: assignment %q: assignee fragment %q, of type %q, has read-only type",
